@@ -302,12 +302,22 @@ def check_case(spec, res):
             def plist(m):
                 return m["pos"] + (m.get("kw") or [] if kwx is not None else [])
 
+            def cn(t):      # bare `type` is type[object]
+                n = T.tname(t)
+                return "Ty[object]" if n == "type" else n
+
             def key_(m, kw):
-                return ([T.tname(p_["t"]) for p_ in m["pos"]], [T.tname(k_["t"]) for k_ in (m.get("kw") or [])] if kw else None)
+                return ([cn(p_["t"]) for p_ in m["pos"]], [cn(k_["t"]) for k_ in (m.get("kw") or [])] if kw else None)
             if kwx is None and any(key_(x, False) == key_(y, False) and key_(x, True) != key_(y, True)
                                    for x in app for y in app if x is not y):
                 res.skip_unspec()       # they coincide on everything supplied and differ in an omitted keyword
                 continue
+
+            def reqs(m):
+                return [bool(k_.get("req")) for k_ in (m.get("kw") or [])]
+            if any(key_(x, True) == key_(y, True) and reqs(x) != reqs(y) for x in app for y in app if x is not y):
+                res.skip_unspec()       # the same types, the keyword required by one and optional in the other: two
+                continue                # different signatures that nothing orders (neither replaces the other)
 
             def beats(m1, m2):
                 le = all(_le(p1["t"], p2["t"], env) for p1, p2 in zip(plist(m1), plist(m2)))
